@@ -111,9 +111,24 @@ class Program:
         ho = [f for f in self.functions if f.kind != 'lambda' and f.body and '/third_party/' not in f.file and f.file.startswith(self.repo) and higher_order(f)]
         if not new and not ho:
             return
-        from .knorm import normalise
+        from .knorm import normalise, beta_pure_functions
         only = {f.key for f in new}
         self._new_keys = only
+        if new:
+            # new one-expression predicates/accessors read as the expression they return, wherever they are called
+            for f in list(self.functions):
+                if f.body and '/third_party/' not in f.file:
+                    nb = beta_pure_functions(self, f, new)
+                    if nb is not None:
+                        f.body = nb
+                        f.d = dict(f.d, body=nb)
+                        # a local closure that only called such a predicate is now a pure one-expression closure itself
+                        from .knorm import beta_pure_closures
+                        nb2 = beta_pure_closures(self, f) if f.kind != 'lambda' else None
+                        if nb2 is not None:
+                            f.body = nb2
+                            f.d = dict(f.d, body=nb2)
+                            self.beta_closures.append(f.name)
         for f in (list(self.functions) if new else ho):
             if f.kind == 'lambda' or not f.body or '/third_party/' in f.file:
                 continue
